@@ -505,10 +505,21 @@ def const_program(case):
         vty = f'memref<{sh}x{el}, strided<[{", ".join(map(str, strides))}], offset: {off0 * strides[0]}>, "L3">'
         glob2 = f'  "memref.global"() <{{alignment = 64 : i64, constant, initial_value = dense<{nested(gvals, gshape)}> : tensor<{gsh}x{el}>, sym_name = "g", sym_visibility = "private", type = memref<{gsh}x{el}>}}> : () -> ()\n'
         offs = ", ".join([str(off0)] + ["0"] * (len(shape) - 1))
+        sib = ""
+        if case.get("sibling"):
+            # the global is divided into tiles: a second window of it is read as well - as it is, or through a layout cast of its own
+            off1 = (mult - 1) * shape[0] if off0 == 0 else 0
+            vty1 = f'memref<{sh}x{el}, strided<[{", ".join(map(str, strides))}], offset: {off1 * strides[0]}>, "L3">'
+            offs1 = ", ".join([str(off1)] + ["0"] * (len(shape) - 1))
+            sib = f'  %s2 = memref.subview %0[{offs1}] [{", ".join(map(str, shape))}] [{", ".join(["1"] * len(shape))}] : {gl3} to {vty1}\n'
+            if case["sibling"] == "cast":
+                sib += f'  %2 = "snax.layout_cast"(%s2) : ({vty1}) -> {l3t}\n  "test.op"(%2) {{view_of_constant}} : ({l3t}) -> ()\n'
+            else:
+                sib += f'  "test.op"(%s2) {{view_of_constant}} : ({vty1}) -> ()\n'
         src = (
             f'builtin.module {{\n{glob2}  %0 = memref.get_global @g : {gl3}\n'
             f'  %s = memref.subview %0[{offs}] [{", ".join(map(str, shape))}] [{", ".join(["1"] * len(shape))}] : {gl3} to {vty}\n'
-            f'  %1 = "snax.layout_cast"(%s) : ({vty}) -> {l3t}\n  "test.op"(%1) : ({l3t}) -> ()\n}}'
+            f'{sib}  %1 = "snax.layout_cast"(%s) : ({vty}) -> {l3t}\n  "test.op"(%1) : ({l3t}) -> ()\n}}'
         )
         first = off0 * (n // shape[0])
         return src, gvals[first : first + n], shape
@@ -769,7 +780,7 @@ def gen_case(rng, tier):
         depth = [rng.choice([1, 2, 2, 3]) for _ in range(rank)]
         tb = [[rng.choice([1, 2, 2, 3, 4]) for _ in range(depth[d])] for d in range(rank)]
         return {"fam": "const", "tb": tb, "steps": gen_steps(rng, tb, pad=False), "steps2": gen_steps(rng, tb, pad=False), "el": rng.choice(["i8", "i32", "f32"]),
-                "mult": rng.choice([1, 2, 3]), "off0": rng.choice([0, 0, 1, 2]),
+                "mult": rng.choice([1, 2, 3]), "off0": rng.choice([0, 0, 1, 2]), "sibling": rng.choice([None, None, "plain", "cast"]),
                 "kind": rng.choice(["const", "const", "const-two-layouts", "const-chain", "const-subview", "const-msc-subview", "global-msc-subview", "global-subview", "global-subview", "global", "global", "global-two-gets", "global-two-casts", "global-two-funcs", "global-two-layouts", "global-chain", "global-msc-two-layouts"]), "mul": rng.choice([1, 3, 7])}
     accum = rng.choice([0, 0, 0, 0.3])
     uninit = rng.choice([0, 0, 0, 0.4])
